@@ -103,7 +103,8 @@ PROPERTIES = {
         "deadline": {"quick": 150, "thorough": 1300},
         "rule": "sequential: every state of the C02 search is walked (sorted unique entries, separators bound subtrees, parent/child and "
                 "prev/next links, no lock or dirty bit, no reachable deleted/retired node) and get = scan = reversed backward iscan = model; "
-                "concurrent: the same walk at the end of every schedule of the structural-writer scenarios",
+                "concurrent: the same walk at the end of every schedule of the structural-writer scenarios (58 programs: unlink vs split, collapse vs insert, "
+                "sibling nodes emptied together and revived, layer-root replacement, IFULL cascade)",
         "assumptions": SC_ASSUME,
     },
     "C10": {
@@ -148,7 +149,8 @@ PROPERTIES = {
         "accept": r"storage:|ddl:|crash|deadlock|livelock",
         "deadline": {"quick": 120, "thorough": 1300},
         "rule": "sequential: explicit-state search over create/delete/find/list/put/get/remove/scan by name, 6 names (empty, binary, 9 and 300 bytes, "
-                "shared prefixes), model = map of maps, depth 6 (thorough 9); concurrent: " + E1_RULE,
+                "shared prefixes), model = map of maps, depth 6 (thorough 9); concurrent: create/delete/find races incl. delete with the epoch and gc threads "
+                "scheduled alongside (write-after-free scan of reclaimed blocks), " + E1_RULE,
         "assumptions": SC_ASSUME,
     },
     "C15": {
@@ -158,7 +160,8 @@ PROPERTIES = {
         "accept": r"value:|lin:|scan:|iscan:|crash",
         "deadline": {"quick": 120, "thorough": 900},
         "rule": "lengths {0..3 MiB+1 boundary classes} x alignments 1..4096 x {insert, overwrite} x {layer 0, layer 1} x get/scan/iscan/created_value_ptr, "
-                "inline pointer values; concurrent: reader vs overwrite of the same key with values of different length, " + E1_RULE,
+                "inline pointer values; concurrent: get / scan / cursor vs overwrite of the same key with a value of different and of equal length, every value "
+                "pointer handed out re-read before the sessions leave, " + E1_RULE,
         "assumptions": SC_ASSUME + ["value lengths and alignments are boundary classes, not all 2^32 lengths"],
     },
     "C16": {
@@ -166,8 +169,9 @@ PROPERTIES = {
         "jobs": [{"bin": "h_life", "args": [], "shards": 16}],
         "accept": r"life:|crash|deadlock|livelock",
         "deadline": {"quick": 150, "thorough": 900},
-        "rule": "every lifecycle history I.<body>.F.I.P.F (and two repetitions for short bodies) with bodies over {create+put, enter, leave, remove, "
-                "epoch tick, gc tick, destroy, probe} up to length 3 (thorough 4); real init()/fin(), the spawned epoch and gc threads are "
+        "rule": "every lifecycle history I.<body>.F.I.P.F (and two repetitions for short bodies) with bodies over {create+put, enter+hold a value, leave, "
+                "remove, remove from another session, epoch tick, gc tick, destroy, probe} up to length 3 (thorough 4), and I.P.F.J.<body>.F (body in a later "
+                "cycle after a bare init(), length <= 4 / 5); real init()/fin(), the spawned epoch and gc threads are "
                 "scheduler threads that run only on tick operations; one deterministic execution per history",
         "assumptions": ["background threads are driven by explicit ticks (no real time)"],
     },
